@@ -75,6 +75,7 @@ type world struct {
 	loader *px.MemLoader
 	tpl    *pongo2.Template
 	names  []string // the block names every ExecuteBlocks operation of this world passes (one slice, shared by the threads)
+	shared pongo2.Context // ONE context map handed to the executions of several threads (they only read it)
 }
 
 func (c *Case) newWorld() (*world, string) {
@@ -92,7 +93,7 @@ func (c *Case) newWorld() (*world, string) {
 	if tpl == nil {
 		return nil, out.String()
 	}
-	return &world{set: set, loader: l, tpl: tpl, names: c04.BlockNames()}, ""
+	return &world{set: set, loader: l, tpl: tpl, names: c04.BlockNames(), shared: c04.MkCtx(0)}, ""
 }
 
 // op returns the body of one thread
@@ -101,6 +102,8 @@ func (w *world) op(name string) func() any {
 	case strings.HasPrefix(name, "exec:"):
 		i := int(name[5] - '0')
 		return func() any { return px.Exec(w.tpl, c04.MkCtx(i)).String() }
+	case name == "execshared":
+		return func() any { return px.Exec(w.tpl, w.shared).String() }
 	case strings.HasPrefix(name, "execwriter:"):
 		i := int(name[11] - '0')
 		return func() any {
@@ -251,7 +254,7 @@ func (c *Case) Exec(t *eng.T) {
 			for _, o := range c.Ops {
 				bodies = append(bodies, w.op(o))
 			}
-			roots := map[string]any{"tpl": w.tpl, "set": w.set, "names": &w.names}
+			roots := map[string]any{"tpl": w.tpl, "set": w.set, "names": &w.names, "shared": w.shared}
 			for _, v := range pongo2.VerifPkgVars() {
 				roots["pkg."+v.Name] = v.Ptr // everything reachable from package-level variables is shared, too
 			}
@@ -321,7 +324,7 @@ func run(r *eng.Runner) {
 	if !r.Quick() {
 		bound, maxS = 3, 200000
 	}
-	r.Group("exec-exec", "c05.case", fmt.Sprintf("two threads executing ONE compiled template (every C04 program, options off and TrimBlocks+LStripBlocks) with different contexts (also the failing one; for programs with blocks also ExecuteBlocks with one list of names shared by the threads), every schedule up to %d preemption(s); stores into memory reachable from the template/set/package variables are scheduling points, loader I/O too", bound))
+	r.Group("exec-exec", "c05.case", fmt.Sprintf("two threads executing ONE compiled template (every C04 program, options off and TrimBlocks+LStripBlocks) with different contexts (also the failing one; for programs with blocks also ExecuteBlocks with one list of names shared by the threads; two executions that are handed the SAME Context map), every schedule up to %d preemption(s); stores into memory reachable from the template/set/package variables are scheduling points, loader I/O too", bound))
 	for i, n := range names {
 		for _, trim := range []bool{false, true} {
 			for oi, ops := range [][]string{{"exec:0", "exec:1"}, {"exec:0", "exec:2"}, {"execwriter:1", "unbuffered:0"}, {"execbytes:0", "execbytes:1"}} {
@@ -329,6 +332,10 @@ func run(r *eng.Runner) {
 					continue // 600 nested calls per execution: one pairing is enough (every scheduling point inside the recursion multiplies the schedules)
 				}
 				r.Do(&Case{Files: files[i], Trim: trim, Ops: ops, Bound: bound, MaxSched: maxS, Label: "exec-exec:" + n})
+			}
+			if !trim && !strings.HasSuffix(n, "-deep") {
+				// one request context shared by the goroutines that render it
+				r.Do(&Case{Files: files[i], Trim: trim, Ops: []string{"execshared", "execshared"}, Bound: bound, MaxSched: maxS, Label: "exec-shared-context:" + n})
 			}
 			if strings.Contains(files[i]["/main"], "{% block") {
 				for _, ops := range [][]string{{"blocks:0", "blocks:1"}, {"blocks:0", "exec:1"}} {
